@@ -1,4 +1,5 @@
 import PC.Proofs.SupArms
+import PC.Proofs.SupSd
 import PC.Spec.SupSpec
 /-! C03 — shutdown completeness (supervisor model). -/
 namespace PC.Props.C03
@@ -55,6 +56,48 @@ theorem terminating_refuses_launch (s : Sys) (t : Tid) (i : IId) (ht : t < s.thr
 /-- The shutdown call returns only when every waiter it spawned has finished. -/
 theorem shutdown_waits_for_waiters (s : Sys) (u : Tid) (k : SdK) (h : (s.thr u).pc = .sdWg k) :
     enabledThr s u = true ↔ s.sdWg = 0 := by simp [enabledThr, h]
+
+/-! ### global: every state the model passes through, every schedule -/
+
+/-- the shutdown wait group never undercounts the stoppers / waiters that have not finished -/
+theorem shutdown_waitgroup_covers (gr : Gran) (o : Bool) (cfgs : List Cfg) {s : Sys}
+    (hr : Reach (init gr o cfgs) s) : openSd s ≤ s.sdWg :=
+  (reachF_sdInv gr o cfgs hr.fine).cnt
+
+/-- **whenever `ShutDownProject` is able to pass its wait group** (after which it returns), every
+    stopper and every waiter it created has finished, and the instance each was responsible for is done -/
+theorem shutdown_passes_only_when_done (gr : Gran) (o : Bool) (cfgs : List Cfg) {s : Sys}
+    (hr : Reach (init gr o cfgs) s) (u : Tid) (k : SdK) (hp : (s.thr u).pc = .sdWg k) (hen : enabledThr s u = true)
+    (w : Tid) (hw : w < s.threads.length) (i : IId) (hk : (s.thr w).kind = .stopper i ∨ (s.thr w).kind = .waiter i) :
+    (s.thr w).pc = .finished ∧ (s.inst i).done = true :=
+  sd_pass (reachF_sdInv gr o cfgs hr.fine) ((shutdown_waits_for_waiters s u k hp).mp hen) w hw i hk
+
+/-- **Ordered shutdown, end to end** (see `PC.Sup.ordered_shutdown_returns_after_all_done`): from the
+    state in which a thread has prepared the shutdown of `order`, through any continuation, it can
+    pass the wait group only when every instance of `order` is done. -/
+theorem ordered_shutdown_complete (gr : Gran) (o : Bool) (cfgs : List Cfg) {s0 s2 : Sys}
+    (h0 : ReachF (init gr o cfgs) s0) (t : Tid) (order : List IId) (k k' : SdK) (hh : Hints)
+    (ht : t < s0.threads.length) (hp : (s0.thr t).pc = .sdPrepared order k) (hord : s0.ordered = true)
+    (hrun : enabledThr s0 t = true ∨ mustPark s0 t = false)
+    (h12 : ReachF (stepThread s0 t hh) s2) (hp2 : (s2.thr t).pc = .sdWg k') (hen : enabledThr s2 t = true) :
+    ∀ i ∈ order, (s2.inst i).done = true :=
+  ordered_shutdown_returns_after_all_done gr o cfgs h0 t order k k' hh ht hp hord hrun h12 hp2 hen
+
+/-- the premises are met: three processes with fan-in, ordered shutdown; two single steps into the
+    shutdown request the thread has prepared the order `[0, 1, 2]`; at the end of the scenario it may
+    pass the wait group, and all three instances are done -/
+example :
+    let fanin : List Cfg := [{}, { deps := [(0, .started)] }, { deps := [(0, .started)] }]
+    let run1 : List Choice := [.call 0 .runMain, .run 0, .run 1, .run 2, .run 3, .run 2, .run 3, .call 1 .shutdown]
+    let run2 : List Choice := [.run 4, .run 5, .run 6, .run 6, .run 7, .run 7, .run 2, .run 3, .run 8, .run 9, .run 8, .run 9,
+      .run 5, .run 1, .run 0, .run 5, .run 6, .run 7]
+    let s8 := (runTrace (init .coarse true fanin) run1).1
+    let s0 := stepThread (stepThread s8 4 {}) 4 {}
+    let s2 := (runTrace (init .coarse true fanin) (run1 ++ run2)).1
+    (s0.thr 4).pc = .sdPrepared [0, 1, 2] .api ∧ s0.ordered = true ∧ mustPark s0 4 = false ∧
+      (s2.thr 4).pc = .sdWg .api ∧ enabledThr s2 4 = true ∧
+      (s2.inst 0).done = true ∧ (s2.inst 1).done = true ∧ (s2.inst 2).done = true := by
+  set_option maxRecDepth 8000 in decide
 
 /-! ### The full statement fails at fine granularity (windows W1, W3) -/
 
